@@ -111,6 +111,12 @@ fn run_c05_case(rep: &mut Report, ws: &Workspace, case_seed: u64) {
                                     if !(t.full.0 <= t.focus.0 && t.focus.1 <= t.full.1) {
                                         rep.count("focus_outside_full(C20's business)", 1);
                                     }
+                                } else if site == "field-base-spelled-like-module" && t.focus == (0, 0) {
+                                    // `x.label` with a local x spelled like an imported module: a module
+                                    // access whenever the record access does not type-check (Gleam's rule,
+                                    // pinned by the repo's own test hover::tests::module); types are
+                                    // unknown in scoped mode, so the module reading is accepted here.
+                                    rep.count("field_base_read_as_module_access(type-dependent; judged on typed programs)", 1);
                                 } else {
                                     // what did it land on?
                                     let landed = ws
@@ -910,8 +916,13 @@ fn run_c18_case(rep: &mut Report, ws: &Workspace, case_seed: u64) {
             );
         }
         for (label, its) in &got {
-            if its.len() > 1 && h.visible.contains_key(label) {
-                rep.violate("completion-duplicate-label", format!("`{label}` is offered {} times", its.len()), rp.clone());
+            // one spelling may legitimately be offered once per kind: a local and a module
+            // accessor of the same name are both visible (different namespaces)
+            let mut kinds: Vec<String> = its.iter().map(|i| format!("{:?}", i.kind)).collect();
+            kinds.sort();
+            let distinct_kinds = { let mut k = kinds.clone(); k.dedup(); k.len() };
+            if its.len() > distinct_kinds && h.visible.contains_key(label) {
+                rep.violate("completion-duplicate-label", format!("`{label}` is offered {} times with kinds {kinds:?}", its.len()), rp.clone());
             }
             for it in its {
                 let sr = (usize::from(it.source_range.start()), usize::from(it.source_range.end()));
